@@ -284,3 +284,15 @@ def note_map_roundtrip(H, _):
     H.check("every_entry_restored", H.eq([q.note_samples[k] for k in q.note_samples], [s.note_samples[k] for k in s.note_samples]))
     H.check("map_has_119_keys", len(q.note_samples) == 119)
     H.cover("reached")
+
+
+@contract("sampler_canary", ["C16"], targets=["rv.modules.sampler:Sampler.sample_chunks"], canary=True)
+def sampler_canary(H, _):
+    """False claim: sample panning survives for every value -200..200 (it is stored as one byte)."""
+    s = Sampler()
+    smp = Sampler.Sample()
+    smp.data = b"\x00" * 8
+    smp.panning = H.int("pan", -128, 127)
+    s.samples[0] = smp
+    q = H.call(s.clone)
+    H.check("canary_panning_offset_is_zero", q.samples[0].panning == smp.panning + 1)
